@@ -710,6 +710,88 @@ func L4_conc_members() {
 
 func (r *zzReq) Put2(v int64) { r.Sink.Put(v) }
 `)
+	b.WriteString(`
+// the first request is held between the evaluation of an earlier and a later argument of a call while the
+// second request evaluates the same call completely
+func O_overlap_arguments() {
+	apis := zzApis()
+	var secondDone sync.WaitGroup
+	secondDone.Add(1)
+	apis["gate"] = func(me int64) int64 {
+		if me == 1 {
+			secondDone.Wait()
+		}
+		return me
+	}
+	apis["combine"] = func(a, b int64) int64 { return a*1000 + b }
+	gp, e := NewGenginePool(1, 2, SortModel, "rule \"a\" begin\n x = combine(req, gate(req))\n return x\nend\n", apis)
+	zzMust(e, "pool construction")
+	var res1 map[string]interface{}
+	var wg sync.WaitGroup
+	wg.Add(1)
+	go func() {
+		defer wg.Done()
+		_, res1 = gp.Execute(map[string]interface{}{"req": int64(1)}, true)
+	}()
+	vnd.Quiesce() // request one is now blocked inside gate
+	_, res2 := gp.Execute(map[string]interface{}{"req": int64(2)}, true)
+	secondDone.Done()
+	wg.Wait()
+	vnd.Quiesce()
+	x1, ok1 := res1["a"].(int64)
+	x2, ok2 := res2["a"].(int64)
+	vnd.Assert(ok1 && ok2, "both requests got their result")
+	vnd.Assert(x2 == 2002, "the overlapping request reads only its own data")
+	vnd.Assert(x1 == 1001, "a request overlapped by another one still reads only its own data")
+	vnd.Reach("executed")
+}
+`)
+	// a failed request on each entry point, then two overlapping requests that must not meet on one engine
+	for _, pc := range poolCalls() {
+		name := "OF_" + pc.name
+		fmt.Fprintf(&b, `
+// %s with a failing rule, then two overlapping requests each reading only its own data
+func %s() {
+	gp := zzReqPool(1, 2)
+	names := []string{"a", "b"}
+	stag := &Stag{}
+	_, _ = names, stag
+	pol := vnd.Bool("pol")
+	_ = pol
+	data := map[string]interface{}{"req": int64(1), "resp": int64(5), "fail": true, "quiet": false}
+	_, _ = %s
+	vnd.Quiesce()
+	var gate sync.Mutex
+	gate.Lock()
+	r1, r2 := vnd.Int64("r1"), vnd.Int64("r2")
+	var res1 map[string]interface{}
+	var wg sync.WaitGroup
+	wg.Add(1)
+	go func() {
+		defer wg.Done()
+		_, res1 = gp.ExecuteSelectedRules(map[string]interface{}{"req": r1, "resp": int64(1), "fail": false, "quiet": false, "ev": func(s string) {
+			vnd.Event("one:" + s)
+			if s == "a.s" {
+				gate.Lock() // blocks until the host lets go
+				gate.Unlock()
+			}
+		}}, []string{"a"})
+	}()
+	vnd.Quiesce()
+	_, res2 := gp.ExecuteSelectedRules(map[string]interface{}{"req": r2, "resp": int64(2), "fail": false, "quiet": false}, []string{"a"})
+	gate.Unlock()
+	wg.Wait()
+	vnd.Quiesce()
+	x1, ok1 := res1["a"].(int64)
+	x2, ok2 := res2["a"].(int64)
+	vnd.Assert(ok1 && ok2, "both requests got their result")
+	vnd.Assert(x1 == r1 && x2 == r2, "after a failed request two overlapping requests still read only their own data")
+	vnd.Reach("executed")
+}
+`, pc.name, name, strings.ReplaceAll(strings.ReplaceAll(pc.call, ", true, ", ", pol, "), "data, true)", "data, pol)"))
+		fam.Instances = append(fam.Instances, Instance{Func: name, Stratum: "overlap:after-failure", Desc: pc.name + " fails, then two overlapping requests", Expect: []string{"executed"}, Nondet: true})
+	}
+	fam.Instances = append(fam.Instances, Instance{Func: "O_overlap_arguments", Stratum: "overlap", Desc: "overlap inside the argument evaluation of one call site", Expect: []string{"executed"}, Nondet: true})
 	fam.Instances = append(fam.Instances, Instance{Func: "O_overlap3", Stratum: "overlap", Desc: "three overlapping requests on a (1,3) pool", Expect: []string{"executed"}},
 		Instance{Func: "L4_conc_members", Stratum: "L4", Desc: "members of a conc block (three-level, assignment, method) are finished when the pool call returns", Expect: []string{"executed"}})
 	fam.Instances = append(fam.Instances, Instance{Func: "O_overlap", Stratum: "overlap", Desc: "two overlapping requests", Expect: []string{"executed"}},
